@@ -88,8 +88,24 @@ func runtimePanicDiscipline(c *Ctx, rule string) {
 					}
 				case "parseRuleRefExpr":
 					// a reference without a name: the builder never emits one
+					// (a local that holds the name reads as the name)
+					nameLocals := map[string]bool{}
+					ast.Inspect(f.Body, func(m ast.Node) bool {
+						if as, isAs := m.(*ast.AssignStmt); isAs && len(as.Lhs) == 1 && len(as.Rhs) == 1 {
+							if se, isSel := as.Rhs[0].(*ast.SelectorExpr); isSel && se.Sel.Name == "name" {
+								nameLocals[nospace(as.Lhs[0])] = true
+							}
+						}
+						return true
+					})
 					for _, gd := range guardsOf(f.Body, ce.Pos()) {
 						if strings.HasSuffix(gd, `.name==""`) || strings.HasPrefix(gd, `len(`) && strings.HasSuffix(gd, `.name)==0`) {
+							ok = true
+						}
+						if strings.HasSuffix(gd, `==""`) && nameLocals[strings.TrimSuffix(gd, `==""`)] {
+							ok = true
+						}
+						if strings.HasPrefix(gd, "len(") && strings.HasSuffix(gd, ")==0") && nameLocals[gd[4:len(gd)-4]] {
 							ok = true
 						}
 					}
